@@ -12,10 +12,10 @@ META = {
              'ast.unparse(edited) parses and round-trips (the user\'s AST denotes valid Python). Oracle: reconcile does not raise; C01 oracle on the result; '
              'dump(ast.parse(out.src)) == dump(ast.parse(ast.unparse(edited))); zero mutations => out.src == marked source; statements whose subtree and ancestors\' other '
              'fields were not touched keep their own text (modulo uniform re-indent) incl. trailing line comment and the comment block directly above. '
-             'A cell is (mutation kinds of the round, host node classes). Further mutation kinds: two statements of another FST tree placed side by side (consecutive siblings or same parent but different list fields), ImportFrom.level, comprehension.is_async, Constant.kind, identifiers held as strings (alias/arg/attr/keyword/def/handler/module names), operators; reconcile() is called under randomly chosen ambient thread options that it pins itself (pars, norm, trivia, coerce ...). The edited AST must also be expressible (parse(unparse(edited)) == edited).'),
+             'A cell is (mutation kinds of the round, host node classes). Further mutation kinds: two statements of another FST tree placed side by side (consecutive siblings or same parent but different list fields), ImportFrom.level, comprehension.is_async, Constant.kind, identifiers held as strings (alias/arg/attr/keyword/def/handler/module names), operators; reconcile() is called under randomly chosen ambient thread options that it pins itself (pars, norm, trivia, coerce ...). The edited AST must also be expressible (parse(unparse(edited)) == edited). Two deterministic tables run in every pass: (i) a contiguous RUN of 2-4 nodes of another FST tree (statements or list/tuple/set/call elements) spliced at the start, middle or end of 9 host lists, with EACH index of the run in turn holding a brand-new pure-AST child (judged strictly - the open foreign-node findings concern edits that keep every .f link); (ii) 16 multi-field edits of one node whose final AST is valid but only reachable through a state the source cannot express (ImportFrom module+level, starred-after-keyword calls / class bases, defaults+args, handlers+finalbody, ...), alone, nested and between untouched commented neighbours.'),
     'budget': {'quick': 45, 'thorough': 900},
-    'floors': {'quick': {'rounds_judged': 2500, 'mutations_applied': 4000, 'untouched_statements_checked': 4000},
-               'thorough': {'rounds_judged': 60000, 'mutations_applied': 100000, 'untouched_statements_checked': 100000}},
+    'floors': {'quick': {'rounds_judged': 2500, 'foreign_runs_judged': 300, 'multi_field_edits_judged': 40, 'mutations_applied': 4000, 'untouched_statements_checked': 4000},
+               'thorough': {'rounds_judged': 60000, 'foreign_runs_judged': 300, 'multi_field_edits_judged': 40, 'mutations_applied': 100000, 'untouched_statements_checked': 100000}},
     'shares_c01_oracle': True,
     'assumptions': ['validity of the edited AST = ast.unparse/ast.parse round trip', 'comments BETWEEN statements adjacent to a mutated neighbour are attributed to the neighbour (reconcile\'s comment handling is documented as experimental); only an untouched statement\'s own lines, its trailing comment and the comment block directly above it are required'],
     'technique': 'runtime monitoring: recorded mutation histories checked against a pure-AST reference (unparse/parse)',
@@ -517,14 +517,153 @@ def run_history(ctx, FST, hseed, tier='quick'):
         ctx.sample({'window': label, 'src': src[:120], 'history_seed': hseed})
 
 
+# ----------------------------------------------------------------------------------------------------------------------
+# deterministic sub-domain: a contiguous RUN of nodes of another FST tree spliced into a list field, one of them (any index)
+# holding a brand-new pure-AST child. reconcile() verifies each foreign node before copying its source; a node that fails
+# must be rebuilt. Judged strictly (this is NOT the open "edit inside a foreign node is ignored" finding, whose edits keep
+# every .f link intact: here the replaced child has no FST node at all).
+
+FR_HOSTS = [
+    ('x = 1  # one\ny = 2  # two\n', lambda a: a.body), ('if t:\n    p = 0  # c\nelse:\n    q = 1\n', lambda a: a.body[0].body),
+    ('def f(a):\n    """doc"""\n    return a\n', lambda a: a.body[0].body), ('for i in j:\n    pass\nelse:\n    k = 1\n', lambda a: a.body[0].orelse),
+    ('v = [1, 2]\n', lambda a: a.body[0].value.elts), ('v = (1, 2)\n', lambda a: a.body[0].value.elts), ('v = {1, 2}\n', lambda a: a.body[0].value.elts),
+    ('g(1, 2)\n', lambda a: a.body[0].value.args), ('try:\n    a = 1\nfinally:\n    b = 2  # fin\n', lambda a: a.body[0].finalbody),
+]
+FR_STMT_DONOR = 'a = f(1)  # A\nb = g(2, k=3)  # B\nreturn_ = [h(3), i]  # C\nd = u if v else w\n'
+FR_EXPR_DONOR = 'z = [u, v + 1, w(2), (x, y)]\n'
+
+
+def fresh_expr(rnd):
+    return rnd.choice([lambda: ast.Name(id='zzz', ctx=ast.Load()), lambda: ast.Constant(value=99),
+                       lambda: ast.BinOp(left=ast.Name(id='m', ctx=ast.Load()), op=ast.Add(), right=ast.Constant(value=1)),
+                       lambda: ast.Call(func=ast.Name(id='n', ctx=ast.Load()), args=[], keywords=[])])()
+
+
+def run_foreign_runs(ctx, FST, rnd):
+    from ..base import insync, short, refparse
+    for hi, (hsrc, getlist) in enumerate(FR_HOSTS):
+        is_stmt = isinstance(getlist(ast.parse(hsrc))[0], ast.stmt)
+        dsrc = FR_STMT_DONOR if is_stmt else FR_EXPR_DONOR
+        nd = 4
+        for k in (2, 3, 4):
+            for start in range(0, nd - k + 1):
+                for j in range(k):          # index (inside the run) of the node that gets the brand-new child
+                    for pos in (0, 1, 'end'):
+                        host = FST(hsrc, 'exec')
+                        host.mark()
+                        donor = FST(dsrc, 'exec')
+                        dl = donor.a.body if is_stmt else donor.a.body[0].value.elts
+                        run_nodes = dl[start:start + k]
+                        slots = expr_slots(run_nodes[j]) if not isinstance(run_nodes[j], ast.Name) else []
+                        if not slots:
+                            ctx.count('foreign_run_node_without_replaceable_child')
+                            continue
+                        parent, field, idx = rnd.choice(slots)
+                        if idx is None:
+                            setattr(parent, field, fresh_expr(rnd))
+                        else:
+                            getattr(parent, field)[idx] = fresh_expr(rnd)
+                        lst = getlist(host.a)
+                        at = len(lst) if pos == 'end' else min(pos, len(lst))
+                        lst[at:at] = run_nodes
+                        case = {'component': 'foreign_run', 'host': hsrc, 'donor': dsrc, 'k': k, 'start': start, 'j': j, 'pos': pos}
+                        try:
+                            want = ast.parse(ast.unparse(host.a))
+                        except Exception:
+                            ctx.count('edited_ast_not_valid_python(out of scope)')
+                            continue
+                        try:
+                            out = host.reconcile()
+                        except Exception as e:
+                            ctx.violation(f'foreign-run-with-new-child:reconcile-raised:{type(e).__name__}', f'run of {k} foreign nodes (node {j} holds a brand-new AST child) into {short(hsrc, 60)!r} at {pos}: {type(e).__name__}: {short(str(e), 120)}', case)
+                            continue
+                        ctx.count('foreign_runs_judged')
+                        ctx.evaluations += 1
+                        ctx.cell('foreign-run', 'stmt' if is_stmt else 'expr', k, j == 0)
+                        ok, detail = insync(out)
+                        got, _ = refparse(out.src)
+                        if ok is False or got is None or sdump(got) != sdump(want):
+                            ctx.violation('foreign-run-with-new-child:result-differs-from-edited-ast', f'run of {k} foreign nodes (node {j} of the run holds a brand-new AST child) into {short(hsrc, 60)!r} at {pos}: '
+                                          f'out.src={short(out.src, 200)!r} does not denote the edited AST {short(ast.unparse(want), 200)!r} (insync={ok} {detail})', case)
+
+
+# several fields of ONE node edited together, where the valid final AST is only reachable field by field through a state
+# the source cannot express (reconcile falls back to putting the whole node)
+MULTI = [
+    ('from a import b\n', lambda a: (setattr(a.body[0], 'module', None), setattr(a.body[0], 'level', 1))),
+    ('from . import b\n', lambda a: (setattr(a.body[0], 'module', 'm'), setattr(a.body[0], 'level', 0))),
+    ('from .a import b\n', lambda a: (setattr(a.body[0], 'module', None), setattr(a.body[0], 'level', 2))),
+    ('f(a=1, *b)\n', lambda a: a.body[0].value.args.__setitem__(0, ast.Name(id='c', ctx=ast.Load()))),
+    ('f(a=1, *b)\n', lambda a: setattr(a.body[0].value.keywords[0], 'arg', None)),
+    ('f(x, a=1, *b, c=2)\n', lambda a: a.body[0].value.args.__setitem__(1, a.body[0].value.args[1].value)),
+    ('class C(metaclass=M, *mixins): pass\n', lambda a: a.body[0].bases.__setitem__(0, ast.Name(id='B', ctx=ast.Load()))),
+    ('class C(metaclass=M, *mixins): pass\n', lambda a: setattr(a.body[0].keywords[0], 'arg', None)),
+    ('def f(a, b=1): pass\n', lambda a: (a.body[0].args.defaults.clear(), a.body[0].args.args.append(ast.arg(arg='c')))),
+    ('def f(a, /, b): pass\n', lambda a: (a.body[0].args.args.extend(a.body[0].args.posonlyargs), a.body[0].args.posonlyargs.clear())),
+    ('try: pass\nexcept E: pass\n', lambda a: (a.body[0].handlers.clear(), a.body[0].finalbody.append(ast.Pass()))),
+    ('x: int = 1\n', lambda a: (setattr(a.body[0], 'value', None), setattr(a.body[0], 'annotation', ast.Name(id='str', ctx=ast.Load())))),
+    ('with a as b: pass\n', lambda a: (setattr(a.body[0].items[0], 'optional_vars', None), setattr(a.body[0].items[0], 'context_expr', ast.Name(id='c', ctx=ast.Load())))),
+    ('d = {a: 1, **b}\n', lambda a: (a.body[0].value.keys.__setitem__(1, ast.Name(id='k', ctx=ast.Load())), a.body[0].value.keys.__setitem__(0, None))),
+    ('lambda a, b=1: a\n', lambda a: (a.body[0].value.args.defaults.clear(), a.body[0].value.args.args.reverse())),
+    ('import a.b as c\n', lambda a: (setattr(a.body[0].names[0], 'asname', None), setattr(a.body[0].names[0], 'name', 'd'))),
+]
+
+
+def run_multi_field(ctx, FST):
+    from ..base import insync, short, refparse
+    for i, (src, edit) in enumerate(MULTI):
+        for wrap in ('{}', 'if t:\n    {}', 'x = 0  # keep\n{}y = 1  # keep too\n'):
+            full = wrap.format(src) if wrap != '{}' else src
+            if wrap.startswith('if'):
+                full = 'if t:\n    ' + src.replace('\n', '\n    ').rstrip(' ')
+            try:
+                root = FST(full, 'exec')
+            except Exception:
+                continue
+            root.mark()
+            sub = ast.Module(body=root.a.body[0].body if wrap.startswith('if') else root.a.body[1:2] if wrap.startswith('x') else root.a.body, type_ignores=[])
+            try:
+                edit(sub)
+                want = ast.parse(ast.unparse(root.a))
+                if sdump(want) != sdump(ast.parse(ast.unparse(want))):
+                    raise ValueError
+            except Exception:
+                ctx.count('edited_ast_not_valid_python(out of scope)')
+                continue
+            case = {'component': 'multi_field', 'index': i, 'src': full}
+            try:
+                out = root.reconcile()
+            except Exception as e:
+                ctx.violation(f'multi-field-edit:reconcile-raised:{type(e).__name__}', f'several fields of one node edited together in {short(full, 80)!r} -> valid AST {short(ast.unparse(want), 80)!r}, reconcile() raised {type(e).__name__}: {short(str(e), 120)}', case)
+                continue
+            ctx.count('multi_field_edits_judged')
+            ctx.evaluations += 1
+            ctx.cell('multi-field', i, wrap[:2])
+            ok, detail = insync(out)
+            got, _ = refparse(out.src)
+            if ok is False or got is None or sdump(got) != sdump(want):
+                ctx.violation('multi-field-edit:result-differs-from-edited-ast', f'{short(full, 80)!r}: out.src={short(out.src, 160)!r} does not denote {short(ast.unparse(want), 160)!r} (insync={ok} {detail})', case)
+            if wrap.startswith('x') and ('x = 0  # keep' not in out.src or 'y = 1  # keep too' not in out.src):
+                ctx.violation('untouched-statement-text-changed', f'{short(full, 80)!r}: untouched neighbours lost their text: {short(out.src, 160)!r}', case)
+
+
 def run(ctx):
     from fst import FST
+    if ctx.mine(0):
+        run_multi_field(ctx, FST)
+    if ctx.mine(1) or ctx.mine(2):
+        run_foreign_runs(ctx, FST, ctx.rnd)
     while not ctx.out_of_time():
         run_history(ctx, FST, ctx.rnd.getrandbits(48), ctx.tier)
 
 
 def replay(ctx, case):
     from fst import FST
+    if case.get('component') == 'multi_field':
+        return run_multi_field(ctx, FST)
+    if case.get('component') == 'foreign_run':
+        import random
+        return run_foreign_runs(ctx, FST, random.Random(0))
     print('marked source of the failing round:')
     print(case.get('src'))
     print('mutation kinds:', case.get('kinds'))
